@@ -272,16 +272,159 @@ def run_text(shard):
     return acc
 
 
+DONORS = [('CN(C)C', 1), ('CSC', 1), ('C[Se]C', 1), ('CP(C)C', 1), ('C[As](C)C', 1), ('COC', 1), ('CC#N', 3), ('C[Te]C', 1), ('C[Sb](C)C', 1), ('CCl', 1)]
+METALS = ['[Pd](Cl)Cl', '[Cu]Cl', '[Fe]', '[Sc](Cl)(Cl)Cl', '[Ni](C#O)']
+
+
+def dative_texts():
+    """RDKit SMILES of donor->metal complexes, donor written first and metal written first"""
+    out = []
+    for d, di in DONORS:
+        # donor atom = atom index di of the donor text; rewrite so the dative bond starts at it
+        for mt in METALS:
+            if di == 1:
+                head, tail = d[:d.index(']') + 1] if d[1] == '[' else d[:2], None
+            # simple construction: ring-closure digit on the donor atom and on the metal
+            toks = _atoms_of(d)
+            donor_first = ''.join(t + ('->9' if i == di else '') for i, t in enumerate(toks)) + '.' + mt.replace(']', ']9', 1)
+            metal_first = mt.replace(']', ']<-9', 1) + '.' + ''.join(t + ('9' if i == di else '') for i, t in enumerate(toks))
+            out.append((donor_first, d, mt))
+            out.append((metal_first, d, mt))
+    return out
+
+
+def _atoms_of(text):
+    import re
+    return re.findall(r'\[[^\]]+\]|Cl|Br|[A-Z]|[#=()]', text)
+
+
+def run_extras(shard):
+    """(1) stereocentres with an explicit (isotopic) hydrogen atom at every position of the neighbour list, (2) donor->metal coordinate bonds"""
+    from rdkit import Chem
+    from rdkit.Chem import AllChem
+    from chython import smiles
+    from chython.utils.rdkit import to_rdkit_molecule, from_rdkit_molecule
+    part, tier = shard
+    acc = Acc()
+    if part == 'explicit-h':
+        subs = ['[2H]', 'C', 'O', 'CC']
+        texts = []
+        for p in itertools.permutations(subs):
+            for mark in ('@', '@@'):
+                texts.append('%s[C%s](%s)(%s)%s' % (p[0], mark, p[1], p[2], p[3]))
+                texts.append('[C%s](%s)(%s)(%s)%s' % (mark, p[0], p[1], p[2], p[3]))
+        # (a centre carrying both an isotopic H atom and an implicit H is not stereogenic for the library's reader: outside this bridge check)
+        texts += ['[2H][C@]1(C)CCCO1', 'C[C@]1([2H])CCCO1', '[3H][C@](F)(Cl)Br', 'F[C@]([3H])(Cl)Br']
+        for s in texts:
+            r0 = Chem.MolFromSmiles(s)
+            try:
+                m0 = smiles(s)
+            except Exception:
+                acc.ood['chython rejects the molecule'] += 1
+                continue
+            if r0 is None or r0.GetNumAtoms() != len(m0):
+                acc.ood['rdkit folds or rejects the explicit hydrogen'] += 1
+                continue
+            AllChem.Compute2DCoords(r0)
+            n = r0.GetNumAtoms()
+            ref_str = norm_str(m0)
+            nodes = list(range(n))
+            perms = [[p[x] for x in nodes] for p in graphs.gen_perms(nodes)]
+            for p in perms:
+                acc.states += 1
+
+                def bad(what, **d):
+                    acc.fail(what + ' :: explicit hydrogen on a stereocentre', mol=s, form='extras', perm=list(p), **d)
+                    acc.outcomes['FAIL ' + what] += 1
+                r = Chem.RenumberAtoms(r0, list(p))
+                m = check_from(acc, r, ref_str, s, bad)
+                if m is None:
+                    continue
+                check_to(acc, m, r, s, bad)
+                roundtrips(acc, m, r, bad)
+            acc.outcomes['explicit-h'] += 1
+        acc.sample({'texts': texts[:4], 'numberings': 'GEN family'})
+        return acc
+    # dative bonds
+    for text, d, mt in dative_texts():
+        r0 = Chem.MolFromSmiles(text)
+        if r0 is None:
+            acc.ood['rdkit rejects the complex'] += 1
+            continue
+        dat = [b for b in r0.GetBonds() if b.GetBondType() == Chem.BondType.DATIVE]
+        if len(dat) != 1:
+            acc.ood['no dative bond after parsing'] += 1
+            continue
+        n = r0.GetNumAtoms()
+        nodes = list(range(n))
+        perms = [[p[x] for x in nodes] for p in graphs.gen_perms(nodes)]
+        perms = perms[:: max(1, len(perms) // 6)][:7]
+        for p in perms:
+            acc.states += 1
+            acc.transitions += 2
+            r = Chem.RenumberAtoms(r0, list(p))
+            db = [b for b in r.GetBonds() if b.GetBondType() == Chem.BondType.DATIVE][0]
+            donor, metal = db.GetBeginAtomIdx(), db.GetEndAtomIdx()
+
+            def bad(what, **dd):
+                acc.fail(what + ' :: coordinate bond %s' % r.GetAtomWithIdx(donor).GetSymbol(), mol=text, form='dative', perm=list(p), **dd)
+                acc.outcomes['FAIL ' + what] += 1
+            try:
+                m = from_rdkit_molecule(r)
+            except Exception as e:
+                bad('from_rdkit raised %s' % type(e).__name__)
+                continue
+            nums = list(m)
+            if not m.has_bond(nums[donor], nums[metal]) or m.bond(nums[donor], nums[metal]).order != 8:
+                bad('from_rdkit does not turn the dative bond into a coordinate bond')
+                continue
+            hs = [a.GetTotalNumHs() for a in r.GetAtoms()]
+            if [a.implicit_hydrogens for _, a in m.atoms()] != hs:
+                acc.ood['valence models differ before any conversion'] += 1
+                continue
+            if [(a.atomic_symbol, a.charge) for _, a in m.atoms()] != [(a.GetSymbol(), a.GetFormalCharge()) for a in r.GetAtoms()]:
+                bad('from_rdkit per-atom attributes differ')
+                continue
+            try:
+                r2 = to_rdkit_molecule(m)
+            except Exception as e:
+                bad('to_rdkit raised %s' % type(e).__name__)
+                continue
+            d2 = [b for b in r2.GetBonds() if b.GetBondType() == Chem.BondType.DATIVE]
+            if len(d2) != 1 or (d2[0].GetBeginAtomIdx(), d2[0].GetEndAtomIdx()) != (donor, metal):
+                bad('to_rdkit reverses or loses the donor->metal direction', got=[(b.GetBeginAtomIdx(), b.GetEndAtomIdx()) for b in d2], expected=[donor, metal])
+                continue
+            if [a.GetTotalNumHs() for a in r2.GetAtoms()] != hs:
+                bad('to_rdkit changes hydrogen counts', got=[a.GetTotalNumHs() for a in r2.GetAtoms()], expected=hs)
+                continue
+            if not rdk.same(r2, r):
+                bad('to_rdkit(from_rdkit(r)) != r', got=rdk.canon(r2), expected=rdk.canon(r))
+                continue
+            try:
+                m2 = from_rdkit_molecule(r2)
+                if str(m2) != str(m):
+                    bad('from_rdkit(to_rdkit(m)) != m', got=str(m2), expected=str(m))
+            except Exception as e:
+                bad('round trip raised %s' % type(e).__name__)
+            acc.outcomes[('dative', r.GetAtomWithIdx(donor).GetSymbol(), donor < metal)] += 1
+    acc.sample({'donors': [d for d, _ in DONORS], 'metal fragments': METALS})
+    return acc
+
+
 def plan(tier, seed):
     return [Stage('small scope, both toolkits built from spec', run_small, [(k, 64, tier) for k in range(64)],
                   'D(<=%d,2) over C,N,O,S,F,Cl,Br with charges/isotopes/radicals x ALL numberings on both sides' % (4 if tier == 'quick' else 5)),
             Stage('stereo family + corpus from text', run_text, [(k, 64, tier) for k in range(64)],
-                  'ring/double-bond stereo family and corpus stride %d, as written and Kekule, x 9 GEN renumberings on the RDKit side' % (8 if tier == 'quick' else 1))]
+                  'ring/double-bond stereo family and corpus stride %d, as written and Kekule, x 9 GEN renumberings on the RDKit side' % (8 if tier == 'quick' else 1)),
+            Stage('explicit hydrogens on stereocentres; donor->metal bonds', run_extras, [('explicit-h', tier), ('dative', tier)],
+                  'isotopic H atom at every position of the neighbour list (all 24 orders x both marks x middle/first atom) x GEN numberings; 10 donors x 5 metal fragments x donor-first/metal-first x 7 numberings')]
 
 
 def replay(rec):
     tag = rec['mol']
-    if tag.startswith('n'):
+    if rec.get('form') in ('extras', 'dative'):
+        acc = run_extras(('explicit-h' if rec['form'] == 'extras' else 'dative', 'quick'))
+    elif tag.startswith('n'):
         acc = Acc()
         for spec in M.scope(5, 2, elements=ELS, with_h=False):
             if spec['tag'] == tag:
